@@ -139,6 +139,7 @@ class Model:
         self._desugar_getters()
         self._desugar_format()
         self._desugar_printf()
+        self._canon_shapes()
         self.classes: Dict[str, Cls] = {}
         self.funcs: Dict[str, Fn] = {}
         for m in self.mods.values():
@@ -369,6 +370,122 @@ class Model:
         for m in self.mods.values():
             if "%" in m.src:
                 m.tree = T().visit(m.tree)
+
+    def _canon_shapes(self) -> None:
+        """One spelling for re-spellings that cannot change behaviour (tools/shape_probe.py makes them by machine): rewritten at load,
+        so that every rule reads the same tree whichever way the source is written.
+
+            K == x            ->  x == K            (K constant-like: a literal, an ALL_CAPS name or attribute; also !=)
+            if not c: B else: A   ->  if c: A else: B    (a plain else; an elif chain is left alone)
+            y if not c else x ->  x if c else y
+            a <= x and x <= b ->  a <= x <= b        (x free of calls, the same text on both sides)
+            v = E; return v   ->  return E           (v bound here only and read there only)
+        """
+        import re as _re
+
+        def konst(e):
+            if isinstance(e, ast.Constant):
+                return True
+            if isinstance(e, ast.UnaryOp) and isinstance(e.op, ast.USub) and isinstance(e.operand, ast.Constant):
+                return True
+            if isinstance(e, ast.Attribute) and _re.fullmatch(r"[A-Z][A-Z0-9_]*", e.attr) and isinstance(e.value, (ast.Name, ast.Attribute)):
+                return True
+            if isinstance(e, ast.Name) and _re.fullmatch(r"[A-Z][A-Z0-9_]+", e.id):
+                return True
+            if isinstance(e, (ast.Tuple, ast.List)) and e.elts and all(konst(x) for x in e.elts):
+                return True
+            return False
+
+        def pure(e):
+            return not any(isinstance(x, (ast.Call, ast.Await, ast.Yield, ast.YieldFrom, ast.NamedExpr)) for x in ast.walk(e))
+
+        class T(ast.NodeTransformer):
+            def visit_Compare(self, n):
+                n = self.generic_visit(n)
+                if len(n.ops) == 1 and isinstance(n.ops[0], (ast.Eq, ast.NotEq)) and konst(n.left) and not konst(n.comparators[0]) and \
+                        pure(n.comparators[0]):
+                    n.left, n.comparators = n.comparators[0], [n.left]
+                return n
+
+            def visit_BoolOp(self, n):
+                n = self.generic_visit(n)
+                if isinstance(n.op, ast.And) and len(n.values) == 2 and all(isinstance(v, ast.Compare) and len(v.ops) == 1 for v in n.values):
+                    a, b = n.values
+                    order = (ast.Lt, ast.LtE, ast.Gt, ast.GtE)
+                    if isinstance(a.ops[0], order) and isinstance(b.ops[0], order) and pure(a.comparators[0]) and \
+                            ast.dump(a.comparators[0]) == ast.dump(b.left) and \
+                            isinstance(a.ops[0], (ast.Lt, ast.LtE)) == isinstance(b.ops[0], (ast.Lt, ast.LtE)):
+                        return ast.copy_location(ast.Compare(left=a.left, ops=[a.ops[0], b.ops[0]], comparators=[a.comparators[0], b.comparators[0]]), n)
+                return n
+
+            def visit_If(self, n):
+                n = self.generic_visit(n)
+                if isinstance(n.test, ast.UnaryOp) and isinstance(n.test.op, ast.Not) and n.orelse and \
+                        not (len(n.orelse) == 1 and isinstance(n.orelse[0], ast.If)):
+                    n.test, n.body, n.orelse = n.test.operand, n.orelse, n.body
+                return n
+
+            def visit_IfExp(self, n):
+                n = self.generic_visit(n)
+                if isinstance(n.test, ast.UnaryOp) and isinstance(n.test.op, ast.Not):
+                    n.test, n.body, n.orelse = n.test.operand, n.orelse, n.body
+                return n
+
+        def named_results(fn_node):
+            counts = {}
+            for x in ast.walk(fn_node):
+                if isinstance(x, ast.Name):
+                    c = counts.setdefault(x.id, [0, 0])
+                    c[0 if isinstance(x.ctx, ast.Load) else 1] += 1
+            params = {a.arg for a in fn_node.args.posonlyargs + fn_node.args.args + fn_node.args.kwonlyargs}
+            nonloc = {nm for x in ast.walk(fn_node) if isinstance(x, (ast.Global, ast.Nonlocal)) for nm in x.names}
+
+            def is_pair(a, b):
+                return isinstance(a, ast.Assign) and len(a.targets) == 1 and isinstance(a.targets[0], ast.Name) and isinstance(b, ast.Return) and \
+                    isinstance(b.value, ast.Name) and b.value.id == a.targets[0].id
+            pairs = {}
+
+            def count_pairs(stmts):
+                for a, b in zip(stmts, stmts[1:]):
+                    if is_pair(a, b):
+                        pairs[b.value.id] = pairs.get(b.value.id, 0) + 1
+                for st in stmts:
+                    if isinstance(st, (ast.FunctionDef, ast.AsyncFunctionDef, ast.ClassDef)):
+                        continue
+                    for fld in ("body", "orelse", "finalbody"):
+                        v = getattr(st, fld, None)
+                        if isinstance(v, list) and v and isinstance(v[0], ast.stmt):
+                            count_pairs(v)
+                    for h in getattr(st, "handlers", []) or []:
+                        count_pairs(h.body)
+            count_pairs(fn_node.body)
+            # a result name: every binding of it is followed at once by `return <name>`, and it is read nowhere else
+            ok_names = {nm for nm, k in pairs.items() if counts.get(nm) == [k, k] and nm not in params and nm not in nonloc}
+
+            def block(stmts):
+                i = 0
+                while i + 1 < len(stmts):
+                    a, b = stmts[i], stmts[i + 1]
+                    if is_pair(a, b) and b.value.id in ok_names:
+                        stmts[i:i + 2] = [ast.copy_location(ast.Return(value=a.value), a)]
+                        continue
+                    i += 1
+                for st in stmts:
+                    if isinstance(st, (ast.FunctionDef, ast.AsyncFunctionDef, ast.ClassDef)):
+                        continue
+                    for fld in ("body", "orelse", "finalbody"):
+                        v = getattr(st, fld, None)
+                        if isinstance(v, list) and v and isinstance(v[0], ast.stmt):
+                            block(v)
+                    for h in getattr(st, "handlers", []) or []:
+                        block(h.body)
+            block(fn_node.body)
+        for m in self.mods.values():
+            T().visit(m.tree)
+            for n in ast.walk(m.tree):
+                if isinstance(n, (ast.FunctionDef, ast.AsyncFunctionDef)):
+                    named_results(n)
+            ast.fix_missing_locations(m.tree)
 
     def _desugar_format(self) -> None:
         """`"a{}b{}".format(x, y)` (also `{0}`, `{name}`, conversions and plain format specs; also through a local bound once to the
